@@ -88,21 +88,55 @@ CHARACTER_ESCAPES: dict[str, Union[str, Callable[[], UnicodeSubset]]] = {
 }
 
 
+_case_variants: Optional[dict[int, tuple[int, ...]]] = None
+
+
+def get_case_variants() -> dict[int, tuple[int, ...]]:
+    """
+    Returns the map from each cased code point to the other code points that have
+    the same lower case or the same upper case mapping (single character mappings).
+    """
+    global _case_variants
+    if _case_variants is None:
+        by_lower: dict[str, list[int]] = {}
+        by_upper: dict[str, list[int]] = {}
+        cased = []
+        for cp in range(maxunicode + 1):
+            ch = chr(cp)
+            lower, upper = ch.lower(), ch.upper()
+            if lower != ch or upper != ch:
+                cased.append((cp, lower, upper))
+                by_lower.setdefault(lower, []).append(cp)
+                by_upper.setdefault(upper, []).append(cp)
+
+        _case_variants = {}
+        for cp, lower, upper in cased:
+            variants = set(by_lower[lower]) | set(by_upper[upper])
+            variants.update(ord(x) for x in (lower, upper) if len(x) == 1)
+            variants.discard(cp)
+            _case_variants[cp] = tuple(sorted(variants))
+    return _case_variants
+
+
 class CharacterClass(MutableSet[int]):
     """
     A set class to represent XML Schema/XQuery/XPath regex character class.
 
     :param charset: a string with formatted character set.
     :param xsd_version: the reference XSD version for syntax variants. Defaults to '1.0'.
+    :param ignore_case: if `True` the characters and the ranges of the charset (not the \
+    character class escapes and the category escapes) stand also for their case variants.
     TODO: implement __ior__, __iand__, __ixor__ operators for a full mutable set class.
     """
     _re_char_set = re.compile(r'(?<![^\\]-)(\\[nrt|.\-^?*+{}()\]sSdDiIcCwW]|\\[pP]{[a-zA-Z\-0-9]+})')
     _re_unicode_ref = re.compile(r'\\([pP]){([\w-]+)}')
 
-    __slots__ = 'xsd_version', 'positive', 'negative'
+    __slots__ = 'xsd_version', 'ignore_case', 'positive', 'negative'
 
-    def __init__(self, charset: Optional[str] = None, xsd_version: str = '1.0') -> None:
+    def __init__(self, charset: Optional[str] = None, xsd_version: str = '1.0',
+                 ignore_case: bool = False) -> None:
         self.xsd_version = xsd_version
+        self.ignore_case = ignore_case
         self.positive = UnicodeSubset()
         self.negative = UnicodeSubset()
         if charset:
@@ -122,7 +156,7 @@ class CharacterClass(MutableSet[int]):
             )
 
     def __copy__(self) -> 'CharacterClass':
-        obj = CharacterClass(xsd_version=self.xsd_version)
+        obj = CharacterClass(xsd_version=self.xsd_version, ignore_case=self.ignore_case)
         obj.positive.update(self.positive)
         obj.negative.update(self.negative)
         return obj
@@ -202,6 +236,20 @@ class CharacterClass(MutableSet[int]):
                         self._add_negative(subset)
             else:
                 self.positive.update(part)
+                if self.ignore_case and part:
+                    self._add_case_variants(UnicodeSubset(part))
+
+    def _add_case_variants(self, subset: UnicodeSubset) -> None:
+        """Adds the case variants of the cased code points of a subset."""
+        case_variants = get_case_variants()
+        if len(subset) < len(case_variants):
+            variants = {v for cp in subset for v in case_variants.get(cp, ())}
+        else:
+            variants = {v for cp, others in case_variants.items() if cp in subset for v in others}
+        if variants:
+            extra = UnicodeSubset()
+            extra.update(sorted(variants))
+            self.positive |= extra
 
     def _add_negative(self, subset: UnicodeSubset) -> None:
         """Adds the complement of a subset: ~a | ~b is the complement of a & b."""
